@@ -205,6 +205,38 @@ def check_case(ctx, case):
   ctx.case(key=spec, nontrivial=spec["endpoint"] != "random" or bool(spec["domain"]["constraints"]), sample=None)
 
 
+def check_convopt(ctx):
+  """generated get_discrete_conversion_option vs the Python function, on synthetic counts around every threshold and on
+  real domains"""
+  from libsigopt.views.rest.gp_next_points_categorical import get_discrete_conversion_option
+  if ctx.driver is None:
+    return
+
+  class FakeDomain:
+    def __init__(self, ints, cats):
+      self._i, self.product_of_categories = ints, cats
+
+    def get_integer_component_mappings(self):
+      return [None] * self._i
+
+  grid = [(i, c) for i in (0, 1, 2, 3, 4, 5, 13, 14, 15, 20) for c in (1, 2, 3, 117, 118, 1831, 1832, 1875, 1876, 3999, 4000, 4001, 7500, 15000, 30000)]
+  for _ in range(200):
+    grid.append((ctx.rng.randint(0, 16), ctx.rng.choice([1, ctx.rng.randint(1, 50), ctx.rng.randint(1, 40000)])))
+  for ints, cats in grid:
+    want = get_discrete_conversion_option(FakeDomain(ints, cats))
+    got = ctx.driver.call({"op": "convopt", "ints": ints, "cats": cats})
+    ctx.count("convopt:" + str(want))
+    if got.get("option") != want:
+      ctx.disagree(f"get_discrete_conversion_option({ints} ints, product {cats}): generated model {got.get('option')} implementation {want}",
+                   {"kind": "convopt", "ints": ints, "cats": cats})
+      return
+    n = {"none": 1, "int": 2 ** ints, "cat": cats, "both": cats * 2 ** ints}[want]
+    if n > 30000:
+      ctx.violation("C01 neighbour search selected with more than MAXIMUM_NEIGHBORING_POINTS candidates", {"case": {"kind": "convopt", "ints": ints, "cats": cats}, "candidates": n})
+      return
+  ctx.evaluations += len(grid)
+
+
 def softmax_test(ctx):
   """[test] labelled statistical check: task draws of a model-based endpoint follow exp(-cost) (chi-square, 99.9%)."""
   from libsigopt.views.rest.gp_next_points_categorical import select_random_task_by_softmax
@@ -271,4 +303,5 @@ def run(ctx, scale):
     if len(ctx.violations) >= 8:
       break
   if scale == 1:
+    check_convopt(ctx)
     softmax_test(ctx)
